@@ -268,6 +268,10 @@ R("group_by_until", 1, lambda c: {"f": c.fn("key"), "g": c.rng.choice([None, c.f
 # "close a group after k of its elements / when it falls silent")
 R("group_by_until_self", 1, lambda c: {"f": c.fn("key"), "k": c.rng.randrange(0, 3)},
   lambda w, n, a, i: i[0].pipe(ops.group_by_until(F(w, n, a, "f"), None, lambda g: g.pipe(ops.skip(a["k"])))), {"inner", "cb"})
+# ... or one that treats a group that ended (also by an error) as expired: the expiry then happens while the operator is still
+# telling its groups about that end (materialize: no scheduler in between, the expiry is synchronous)
+R("group_by_until_ended", 1, lambda c: {"f": c.fn("key"), "g": c.rng.choice([None, c.fn("map")])},
+  lambda w, n, a, i: i[0].pipe(ops.group_by_until(F(w, n, a, "f"), F(w, n, a, "g"), lambda g: g.pipe(ops.materialize(), ops.filter(lambda n: n.kind != "N")))), {"inner", "cb"})
 R("group_by_merge", 1, lambda c: {"f": c.fn("key")},
   lambda w, n, a, i: i[0].pipe(ops.group_by(F(w, n, a, "f")), ops.flat_map(lambda g: g.pipe(ops.to_list()))), {"cb"})
 R("partition0", 1, lambda c: {"f": c.fn("pred"), "which": c.rng.randrange(2)},
